@@ -35,8 +35,10 @@ ASSUMPTIONS = [
 ]
 
 TOL = 0.5
-POOL_F = [-2.0, -1.0, 0.0, 1.0, 1.0, 2.0, float("nan"), float("inf"), float("-inf")]
-POOL_V = [-1.0, 0.0, 0.25, 0.5, 0.5, 0.75, 1.0, 3.0, float("nan"), float("inf")]
+POOL_F = [-2.0, -1.0, 0.0, 1.0, 1.0, 1.0 - 2.0 ** -35, 2.0, float("nan"), float("inf"), float("-inf")]
+# (0.5 +- 2^-35 and 3 - 2^-33: violations that differ by 1e-10 relative are different violations)
+POOL_V = [-1.0, 0.0, 0.25, 0.5, 0.5, 0.5 - 2.0 ** -35, 0.5 + 2.0 ** -35, 0.75, 1.0, 3.0, 3.0 - 2.0 ** -33,
+          float("nan"), float("inf")]
 PENALTIES = [0.0, 2.0 ** -20, 1.0, 1e3, 1e12]
 BIG = 10 ** 9
 
